@@ -535,6 +535,35 @@ func c18Space(ts []*tree.Node, offsets []int) *core.Space {
 					}
 					res.Outcome = "valid-in-all-three"
 					res.Nontrivial = true
+				} else if valid {
+					// the decoders differ (encoding/json and hjson-go deliver every number as a float64): the
+					// statement compares numbers by value, so each config is held against the document itself
+					truth := normC18(tree.CanonGoOpt(doc.Generic(), true))
+					var who []string
+					detail := ""
+					for k, fe := range c18FrontEnds {
+						if normC18(cfgCanon[k]) != truth {
+							who = append(who, fe.Name)
+							detail += fmt.Sprintf("; %s.NewConfig unpacks to %s", fe.Name, cfgCanon[k])
+						}
+					}
+					if len(who) > 0 {
+						// the cause that is a recorded finding: the document's integers went through a float64
+						var js interface{}
+						json.Unmarshal(b, &js)
+						asFloats := normC18(tree.CanonGoOpt(js, true))
+						sig := "FRONTEND-DATA-DIFFERS-FROM-DOCUMENT "
+						for k, fe := range c18FrontEnds {
+							if normC18(cfgCanon[k]) != truth && normC18(cfgCanon[k]) != asFloats {
+								res = core.Fail("cross", sig+fe.Name, "document "+truth+detail)
+								return
+							}
+						}
+						res = core.Fail("cross", "INTEGER-BEYOND-2^53-ROUNDED-TO-FLOAT64 "+strings.Join(who, "+"), "document "+truth+detail)
+						return
+					}
+					res.Outcome = "decoders-differ, data equal by value"
+					res.Nontrivial = true
 				} else {
 					res.Outcome = "decoders-differ"
 				}
